@@ -222,6 +222,19 @@ def enumerate_ops(m: Model):
     """all op instances over the tiny universe that are valid in state m"""
     A = list(m.atoms)
     out = []
+    n = len(A)
+    if n >= 2 and sorted(A) == list(range(n)):
+        free = [(i, j) for i in range(n) for j in range(i + 1, n)
+                if frozenset((i, j)) not in m.bonds]
+        if free:
+            for tri in ("upper", "lower"):
+                mat = [[0] * n for _ in range(n)]
+                for i, j in free:
+                    if tri == "upper":
+                        mat[i][j] = 1
+                    else:
+                        mat[j][i] = 1
+                out.append(["bonds_from_matrix", mat, tri == "lower"])
     for a in U_IDS:
         if a not in m.atoms:
             out.append(["add_atom", a, 6, {}])
